@@ -352,6 +352,10 @@ var (
 const watchdog = 25 * time.Second
 const closeWatchdog = 6 * time.Second
 
+// close-backoff scenario: 3 s reconnect backoff, client closed ~0.3 s into the pause; an invocation
+// that comes back later than this after the close waited for the pause (known finding)
+const backoffFinding = 1500 * time.Millisecond
+
 func runScenario(cl *cluster.Cluster, p Plan) *scen {
 	sc := &scen{plan: p, targetHit: make(chan struct{})}
 	n := p.NReq
@@ -600,9 +604,9 @@ func raceReplace(c *hx.Ctx, cfg raceCfg) {
 			// correspondence sample: one caller, attempts seen by the two connections
 			ev := []string{"EKill 0%nat"}
 			if oldCalls > 0 {
-				ev = append(ev, "ESnapshot", "EObserveDead", "EReplace", "EWake")
+				ev = append(ev, "ESnapshot", "EObserveDead", "EReplace", "EStart", "EWake")
 			} else {
-				ev = append(ev, "EReplace")
+				ev = append(ev, "EReplace", "EStart")
 			}
 			cls := 0
 			if bad == nil {
@@ -744,7 +748,7 @@ func main() {
 		add("none", "close-pending", 1, 0, 0)
 		add("after-send", "close-waiting", 1, 0, 0)
 		// close during the reconnect backoff pause (1 s): bounded delay, recorded as an observation
-		plans = append(plans, Plan{ID: id, Kill: "after-send", Close: "close-backoff", NReq: 1, BackoffMs: 1000})
+		plans = append(plans, Plan{ID: id, Kill: "after-send", Close: "close-backoff", NReq: 1, BackoffMs: 3000})
 		id++
 		// one msgs_ack for several ids: ids without a waiter (completed Z, never-used U, repeated B)
 		// in every position around the pending target B
@@ -862,7 +866,7 @@ func judge(c *hx.Ctx, sc *scen) {
 	closed := p.Close != "none"
 	if p.Close == "close-backoff" {
 		for k, r := range sc.reqs {
-			c.Note(fmt.Sprintf("observation (not a violation: bounded by the backoff interval): client closed during the %d ms reconnect backoff pause; pending request %d returned %v after close with %q -- RetryNotify's pause is not interrupted by the client context (tdsync.SyncBackoff hides BackOffContext) and the invocation sits in waitSession of the not-yet-run replacement connection", p.BackoffMs, k, r.AfterCl.Round(time.Millisecond), r.Err))
+			c.Note(fmt.Sprintf("observation (known finding close-waits-for-backoff-pause; bounded by the backoff interval): client closed during the %d ms reconnect backoff pause; pending request %d returned %v after close with %q -- RetryNotify's pause is not interrupted by the client context (tdsync.SyncBackoff hides BackOffContext) and the invocation sits in waitSession of the not-yet-run replacement connection", p.BackoffMs, k, r.AfterCl.Round(time.Millisecond), r.Err))
 		}
 	}
 	pattern := ""
@@ -896,6 +900,8 @@ func judge(c *hx.Ctx, sc *scen) {
 			viols = append(viols, viol{"unacked-request-failed:" + errClass(r.Err), fmt.Sprintf("request %d of scenario %+v was never acknowledged, the client stayed open, and the caller got an error instead of a transparent retry: %s (executions on the server: %d, connection killed before send: %v)", k, p, r.Err, len(r.Execs), sc.killed.Load())})
 		case r.Err == "" && (len(r.Execs) == 0 || !r.Execs[len(r.Execs)-1].Answered):
 			viols = append(viols, viol{"result-without-answer", fmt.Sprintf("request %d of scenario %+v returned success but its last execution was not answered", k, p)})
+		case p.Close == "close-backoff" && r.AfterCl > backoffFinding:
+			viols = append(viols, viol{"close-waits-for-backoff-pause", fmt.Sprintf("request %d of scenario %+v: the client was closed during the %d ms reconnect backoff pause and the pending invocation (caller-owned context) returned only %v after the close (%q): it waited in waitSession of the installed, not yet running replacement connection until the pause ended", k, p, p.BackoffMs, r.AfterCl.Round(time.Millisecond), r.Err)})
 		case closed && r.AfterCl > closeWatchdog:
 			viols = append(viols, viol{"invocation-stuck-after-close", fmt.Sprintf("request %d of scenario %+v returned %v after the client was closed", k, p, r.AfterCl)})
 		}
@@ -1007,6 +1013,11 @@ func reconstruct(p Plan, r *reqState, closed bool) ([]string, int) {
 			ev = append(ev, "EResult 1%Z")
 			return ev, 0
 		}
+		if last && closed && !acked && p.Close == "close-backoff" && r.AfterCl > backoffFinding {
+			// the invocation sat on the installed, not yet running replacement until the pause ended
+			ev = append(ev, fmt.Sprintf("EKill %d%%nat", gen), "EObserveDead", "EReplace", "EWake", "ESnapshot", "EClose", "EStart", "EObserveDead", "EWakeClosed")
+			return ev, 2
+		}
 		if last && closed && !acked {
 			ev = append(ev, "EClose", "EObserveDead", "EWakeClosed")
 			return ev, 2
@@ -1024,7 +1035,7 @@ func reconstruct(p Plan, r *reqState, closed bool) ([]string, int) {
 			}
 			return ev, 1
 		}
-		ev = append(ev, "EReplace", "EWake", "ESnapshot")
+		ev = append(ev, "EReplace", "EStart", "EWake", "ESnapshot")
 		gen++
 	}
 	return ev, cls
